@@ -16,7 +16,7 @@ from ..core import Violation, crash_site
 
 PROP = "C04"
 LEVEL = "fault_enumeration"
-RUNS = {"quick": 3500, "thorough": 200000}
+RUNS = {"quick": 2600, "thorough": 200000}
 TIME_CAP = {"quick": 160, "thorough": 1500}
 RULE = ("A: one planted fault__ (any syntactic role) or natural iteration-behaviour error per program, with/without except__ handlers, "
         "1-3 runs per VM, unscheduled or sliced; B: error injected by the hook after dynamic instruction k for every k of a sampled "
